@@ -13,7 +13,9 @@
      Write(l)        Database.writeToDB(r, statePointName=l)     -> new group cXXnYY<l> holding the state as of now
      WriteRefused(l) the same call when the group exists: layout.writeToDB skips silently, _writeParams raises
                      ValueError("... was already in ..."); reactor, files unchanged (the file keeps the first snapshot)
-     Load(c,n,l)     Database.load(c, n, statePointName=l)       -> result register `res` (the loaded reactor)
+     Load(c,n,l,via) Database.load(c, n, statePointName=l) / Database.loadReadOnly / Operator.loadState(c, n, l)
+                     -> result register `res` (the loaded reactor); nothing else changes -- in particular objects created
+                     afterwards (Birth) are new identities, distinct from every object of every snapshot
      Rotate(ok)      Database.close(ok) of the file being written (moved from the fast path to the working directory),
                      which becomes the "other" file B (the reloadDBName of a restart); a fresh file A is opened
      Merge(c0,n0)    A.mergeHistory(B, c0, n0)                   (prepRestartRun; A is the freshly opened file)
@@ -201,9 +203,12 @@ WriteRefused(l) ==
     /\ Writable /\ HasKey(A.snaps, now[1], now[2], l)
     /\ Refuse("ValueError", [n |-> "Write", l |-> l])
 
-Load(c, n, l) ==
+\* via: the public entry point used -- "load" Database.load, "ro" Database.loadReadOnly, "state" Operator.loadState ->
+\* DatabaseInterface.loadState (the operator's reactor is replaced by the loaded one)
+LoadVias == {"load", "ro", "state"}
+Load(c, n, l, via) ==
     /\ Writable /\ HasKey(A.snaps, c, n, l)
-    /\ UNCHANGED vars /\ err' = "" /\ act' = [n |-> "Load", c |-> c, t |-> n, l |-> l]
+    /\ UNCHANGED vars /\ err' = "" /\ act' = [n |-> "Load", c |-> c, t |-> n, l |-> l, via |-> via]
     /\ res' = Loaded(Find(A.snaps, c, n, l))
 
 Rotate(ok) ==
@@ -241,7 +246,7 @@ DbStep == \/ \E l \in LabSet : Write(l) \/ WriteRefused(l)
           \/ \E ok \in BOOLEAN : Rotate(ok) \/ Close(ok, "close") \/ Close(ok, "exit")
           \/ \E pr \in Pairs : Merge(pr[1], pr[2])
           \/ \E K \in SUBSET PlainPairs(A) : Split(K)
-LoadStep == \E pr \in Pairs, l \in LabSet : Load(pr[1], pr[2], l)
+LoadStep == \E pr \in Pairs, l \in LabSet, via \in LoadVias : Load(pr[1], pr[2], l, via)
 Next == Mutate \/ DbStep
 NextL == Next \/ LoadStep
 
